@@ -103,7 +103,8 @@ def emit_one(g, gi, runtime_ctor=False, limits=None, extra_decl=''):
     decl = 'parser p(n%d, terms(%s), nterms(%s), rules(\n  %s\n)%s);' % (
         g.root, ', '.join(tref), ', '.join('n%d' % i for i in range(len(g.nts))), ',\n  '.join(rules), tail)
     if runtime_ctor:
-        o.append('inline const auto& get() { static const ' + decl + ' return p; }')
+        # really constructed at run time: a static object with constant arguments would be constant-initialised by the compiler
+        o.append('inline const auto& get() { static const auto* q = new ' + decl.replace('parser p(', 'parser(', 1).rstrip(';') + '; return *q; }')
     else:
         o.append('constexpr ' + decl)
         o.append('inline const auto& get() { return p; }')
